@@ -20,8 +20,13 @@ class SubsetGen:
         k = r.random()
         if k < 0.32:
             return f"({self.num(d-1)} {r.choice(['+', '-', '*', '/', '//', '%'])} {self.num(d-1)})"
-        if k < 0.38:
+        if k < 0.35:
             return f"({r.choice(['2', '3', '9', '1.5', '(-2)', '0'])} ** {r.choice(['0', '1', '2', '3', '0.5', '-1'])})"
+        if k < 0.38:
+            # operator patterns an evaluator might fuse: (a ** b) % m, a * b % m, -a ** b, a ** -b ** c, (a % m) ** b ...
+            a, b, m = r.choice(['2', '3', '7', '10', '(-3)', '2.0']), r.choice(['-1', '-2', '-3', '0', '5', '(-1)', '2', '0.5']), r.choice(['5', '7', '13', '(-7)', '1', '2.5'])
+            return r.choice([f"({a} ** {b} % {m})", f"(({a} ** {b}) % {m})", f"({a} * {b} % {m})", f"(-{a} ** {b})",
+                             f"({a} ** {b} ** 2)", f"(({a} % {m}) ** {b})", f"({a} ** {b} // {m})", f"(pow({a}, {b}) % {m})"])
         if k < 0.45:
             return f"({r.choice(['-', '+'])}{self.num(d-1)})"
         if k < 0.68:
@@ -330,6 +335,38 @@ class C02(C01):
                             f"(arguments received by the tool: {seen[-1:]})",
                             case={"expr": e, "pathway": pw, "tool_probe": True, "schema": sch}))
         self.extra_cov["tool_argument_probes"] = n
+        # tool names are exact: two tools whose names differ only in letter case are two tools, and a call spelled in
+        # another case names nothing (Python: NameError)
+        nc = 0
+        for order in (("convert", "Convert"), ("Convert", "convert")):
+            for pw in (None, "tool"):
+                ran = []
+                m = Mitochondria(silent=True)
+                for nm in order:
+                    m.register_function(nm, (lambda *a, _n=nm, **k: ran.append(_n) or (1 if _n == "convert" else 2)), nm)
+                m.register_function("other", lambda *a, **k: ran.append("other") or 3, "other")
+                from operon_ai.organelles.mitochondria import MetabolicPathway
+                for e, want in (("convert(2, unit='km')", ("ok", 1)), ("Convert(2)", ("ok", 2)), ("CONVERT(2)", ("raises", None)),
+                                ("OTHER(5, 1)", ("raises", None)), ("Other()", ("raises", None)), ("other()", ("ok", 3))):
+                    del ran[:]
+                    try:
+                        r = m.metabolize(e, {p.value: p for p in MetabolicPathway}[pw] if pw else None)
+                    except BaseException as ex:  # noqa
+                        self.violations.append(Violation("C02/raises", f"metabolize({e!r}) raised {type(ex).__name__}",
+                                                         case={"expr": e, "pathway": pw, "tool_case_probe": True}))
+                        continue
+                    nc += 1
+                    if r.success and want[0] == "raises":
+                        self.violations.append(Violation(
+                            "C02/success-where-python-raises", f"{e!r} succeeded with {r.atp.value!r} (tool bodies run: {ran}) "
+                            f"although no tool of exactly that name is registered {order + ('other',)}",
+                            case={"expr": e, "pathway": pw, "tool_case_probe": True, "registered": list(order) + ["other"]}))
+                    elif r.success and want[0] == "ok" and r.atp.value != want[1]:
+                        self.violations.append(Violation(
+                            "C02/value-differs", f"{e!r} returned {r.atp.value!r} (tool bodies run: {ran}); the tool of exactly "
+                            f"that name returns {want[1]!r}",
+                            case={"expr": e, "pathway": pw, "tool_case_probe": True, "registered": list(order) + ["other"]}))
+        self.extra_cov["tool_name_case_probes"] = nc
         # Other engine objects in the same process - whatever options they were built with - must not change what a
         # default engine computes: every constructor parameter the class has NOW is tried with assorted values on
         # sibling objects (which also evaluate something), then an old and a fresh default engine are compared with Python.
